@@ -491,7 +491,7 @@ def check(tier):
                                "utilities-mixed-hashability-double-subscription) are judged by the oracle only"])
     rnd = core.rng("C16")
     state = dict(vid=0)
-    scripts = [gen_script(rnd, tier, state) for _ in range({"quick": 120, "thorough": 3000}[tier])]
+    scripts = [gen_script(rnd, tier, state) for _ in range({"quick": 600, "thorough": 3000}[tier])]
     lines = [l for s in scripts for l in s]
     impl, model, divs = runner.correspond(chk, "components", lines, label="components")
     fails = []
